@@ -569,41 +569,60 @@ func condKnownAt(fn *ssa.Function, at *ssa.BasicBlock, idx int, depth int) (bool
 // ctorArgsOK: in the block(s) initialising alloc, bufio.New{Reader,Writer}Size take (conn param, matching size param)
 // and every net.Conn field is set from the conn parameter.
 func ctorArgsOK(fn *ssa.Function, alloc *ssa.Alloc, hasR, hasW bool) (bool, string) {
-	b := alloc.Block()
 	okR, okW, okConn := !hasR, !hasW, false
 	why := ""
-	for _, in := range b.Instrs {
-		cc := core.CallCommon(in)
-		if cc != nil && !cc.IsInvoke() {
-			if core.IsPkgFunc(in, "bufio", "NewReaderSize") || core.IsPkgFunc(in, "bufio", "NewReader") {
-				if core.ParamOf(fn, cc.Args[0]) != 0 {
-					why = "buffered reader does not wrap the conn parameter"
-				} else if len(cc.Args) == 2 && core.ParamOf(fn, cc.Args[1]) != 1 {
-					why = "buffered reader is not sized by readSize"
-				} else {
-					okR = true
-				}
-			}
-			if core.IsPkgFunc(in, "bufio", "NewWriterSize") || core.IsPkgFunc(in, "bufio", "NewWriter") {
-				if core.ParamOf(fn, cc.Args[0]) != 0 {
-					why = "buffered writer does not wrap the conn parameter"
-				} else if len(cc.Args) == 2 && core.ParamOf(fn, cc.Args[1]) != 2 {
-					why = "buffered writer is not sized by writeSize"
-				} else {
-					okW = true
-				}
-			}
+	// values stored into the fields of this literal, wherever they were computed
+	var check func(v ssa.Value, d int)
+	check = func(v ssa.Value, d int) {
+		if d > 4 {
+			return
 		}
-		if st, ok := in.(*ssa.Store); ok {
-			if f, _ := core.FieldOf(st.Addr); f != nil && core.NamedIs(f.Type(), "net", "Conn") {
-				if core.ParamOf(fn, st.Val) == 0 {
-					okConn = true
-				} else {
-					why = "Conn field is not the conn parameter"
-				}
+		call, ok := core.Unwrap(v).(*ssa.Call)
+		if !ok || call.Call.IsInvoke() {
+			return
+		}
+		cc := &call.Call
+		switch {
+		case core.IsPkgFunc(call, "bufio", "NewReadWriter"):
+			check(cc.Args[0], d+1)
+			check(cc.Args[1], d+1)
+		case core.IsPkgFunc(call, "bufio", "NewReaderSize") || core.IsPkgFunc(call, "bufio", "NewReader"):
+			if core.ParamOf(fn, cc.Args[0]) != 0 {
+				why = "buffered reader does not wrap the conn parameter"
+			} else if len(cc.Args) == 2 && core.ParamOf(fn, cc.Args[1]) != 1 {
+				why = "buffered reader is not sized by readSize"
+			} else {
+				okR = true
+			}
+		case core.IsPkgFunc(call, "bufio", "NewWriterSize") || core.IsPkgFunc(call, "bufio", "NewWriter"):
+			if core.ParamOf(fn, cc.Args[0]) != 0 {
+				why = "buffered writer does not wrap the conn parameter"
+			} else if len(cc.Args) == 2 && core.ParamOf(fn, cc.Args[1]) != 2 {
+				why = "buffered writer is not sized by writeSize"
+			} else {
+				okW = true
 			}
 		}
 	}
+	core.AllInstrs(fn, func(in ssa.Instruction) {
+		st, ok := in.(*ssa.Store)
+		if !ok {
+			return
+		}
+		f, base := core.FieldOf(st.Addr)
+		if f == nil || core.Unwrap(base) != ssa.Value(alloc) {
+			return
+		}
+		if core.NamedIs(f.Type(), "net", "Conn") {
+			if core.ParamOf(fn, st.Val) == 0 {
+				okConn = true
+			} else {
+				why = "Conn field is not the conn parameter"
+			}
+			return
+		}
+		check(st.Val, 0)
+	})
 	if why != "" {
 		return false, why
 	}
